@@ -181,6 +181,38 @@ fn check_excess_parentheses(internal_expression: &Expression, context: Expressio
     }
 }
 
+/// When excess parentheses are removed, the comments leading the opening parenthesis and trailing the closing
+/// parenthesis must be kept: returns them as trivia to append onto the inner expression
+fn removed_parentheses_comments(
+    ctx: &Context,
+    contained: &ContainedSpan,
+    shape: Shape,
+) -> (Vec<Token>, Vec<Token>) {
+    let (start_parens, end_parens) = contained.tokens();
+    let leading_comments = start_parens
+        .leading_trivia()
+        .filter(|token| trivia_util::trivia_is_comment(token))
+        .flat_map(|x| {
+            vec![
+                create_indent_trivia(ctx, shape),
+                x.to_owned(),
+                create_newline_trivia(ctx),
+            ]
+        })
+        .collect();
+
+    let trailing_comments = end_parens
+        .trailing_trivia()
+        .filter(|token| trivia_util::trivia_is_comment(token))
+        .flat_map(|x| {
+            // Prepend a single space beforehand
+            vec![Token::new(TokenType::spaces(1)), x.to_owned()]
+        })
+        .collect();
+
+    (leading_comments, trailing_comments)
+}
+
 /// Special case: if we have `- -foo`, or `-(-foo)` where we have already removed the parentheses, then
 /// it will lead to `--foo`, which is invalid syntax. We must explicitly add/keep the parentheses `-(-foo)`.
 /// Takes the formatted operand of `unop`, and wraps it in parentheses if required.
@@ -293,28 +325,8 @@ fn format_expression_internal(
             // If the context is for a prefix, we should always keep the parentheses, as they are always required
             if use_internal_expression && !keep_parentheses {
                 // Get the leading and trailing comments from contained span and append them onto the expression
-                let (start_parens, end_parens) = contained.tokens();
-                let leading_comments = start_parens
-                    .leading_trivia()
-                    .filter(|token| trivia_util::trivia_is_comment(token))
-                    .flat_map(|x| {
-                        vec![
-                            create_indent_trivia(ctx, shape),
-                            x.to_owned(),
-                            create_newline_trivia(ctx),
-                        ]
-                    })
-                    // .chain(std::iter::once(create_indent_trivia(ctx, shape)))
-                    .collect();
-
-                let trailing_comments = end_parens
-                    .trailing_trivia()
-                    .filter(|token| trivia_util::trivia_is_comment(token))
-                    .flat_map(|x| {
-                        // Prepend a single space beforehand
-                        vec![Token::new(TokenType::spaces(1)), x.to_owned()]
-                    })
-                    .collect();
+                let (leading_comments, trailing_comments) =
+                    removed_parentheses_comments(ctx, contained, shape);
 
                 // Keep the context: the parentheses we removed may have wrapped further parentheses, which
                 // are only excess depending on where the whole expression sits [e.g. `((-X)) ^ Y`]
@@ -1378,6 +1390,10 @@ fn format_hanging_expression_(
 
             // If the context is for a prefix, we should always keep the parentheses, as they are always required
             if use_internal_expression && !keep_parentheses {
+                // Keep the comments surrounding the parentheses we removed
+                let (leading_comments, trailing_comments) =
+                    removed_parentheses_comments(ctx, contained, lhs_shape);
+
                 format_hanging_expression_(
                     ctx,
                     expression,
@@ -1385,6 +1401,8 @@ fn format_hanging_expression_(
                     expression_context,
                     lhs_range,
                 )
+                .update_leading_trivia(FormatTriviaType::Append(leading_comments))
+                .update_trailing_trivia(FormatTriviaType::Append(trailing_comments))
             } else {
                 let contained = format_contained_span(ctx, contained, lhs_shape);
 
